@@ -46,6 +46,9 @@ class Script(object):
 
     def random(self):
         self.asked += 1
+        if getattr(self, 'queue', None):
+            idx, n = self.queue.pop(0)
+            return (idx + 0.5) / n
         if self.answer is None:
             raise common.InternalError('random source consulted without a scripted answer')
         idx, n = self.answer
@@ -83,6 +86,38 @@ def reservoir_bfs(acc, tier, i, n):
             r0 = st.Reservoir(c)
             o = observe(r0)
             start.append((c, o[0], o[1], o[2]))
+        # ... and from the constructor's data= argument (more values than the capacity included), under every
+        # sequence of answers of the random source (three positions per consultation)
+        for c in caps:
+            for k in range(1, c + 4):
+                for answers in itertools.product(range(3), repeat=max(0, k - c)):
+                    script.queue = [(a, 3) for a in answers]
+                    script.asked = 0
+                    script.answer = None
+                    acc.transitions += 1
+                    case = {'part': 'reservoir-constructor', 'cap': c, 'data': k, 'answers': list(answers)}
+                    try:
+                        r0 = st.Reservoir(c, data=range(k))
+                    except common.InternalError:
+                        raise
+                    except Exception as e:
+                        acc.violation('C19:reservoir:constructor-raised-%s' % type(e).__name__,
+                                      'Reservoir(%d, data=range(%d)) raised %r' % (c, k, e), case)
+                        continue
+                    finally:
+                        script.queue = []
+                    o = observe(r0)
+                    acc.validated += 1
+                    if len(o[1]) > c or o[0] != c:
+                        acc.violation('C19:reservoir:over-capacity:constructor', 'Reservoir(%d, data=range(%d)) holds %d values, '
+                                      'capacity %r' % (c, k, len(o[1]), o[0]), case)
+                        continue
+                    if o[2] != k or not set(o[1]) <= set(range(k)):
+                        acc.violation('C19:reservoir:total-count:constructor', 'Reservoir(%d, data=range(%d)) reports %r' % (c, k, o), case)
+                        continue
+                    stt = (c, o[0], o[1], o[2])
+                    if stt not in start:
+                        start.append(stt)
         # shard by (initial capacity, first operation)
         seen = set(start)
         frontier = list(start)
@@ -170,7 +205,9 @@ def reservoir_bfs(acc, tier, i, n):
 # ---- (b) counting ---------------------------------------------------------------------------------
 
 ROUTES = ['ok', 'redir', 'raise403', 'ret404', 'boom', 'nb', 'catch', 'nf', 'mna', 'reroute']
-STEPS = ROUTES + ['read', 'reset', 'other-app', 'other-reset']
+STEPS = ROUTES + ['read', 'reset', 'other-app', 'other-reset', 'swap-handler', 'late-add']
+# swap-handler: the live application gets a new error handler; late-add: a route is added to the live application.
+# Neither is a request: the counts must be unaffected.
 
 
 class StatsWorld(object):
@@ -243,6 +280,16 @@ class StatsWorld(object):
                 return ('request-raised', '%s raised %r' % (s, res.raised))
             if res.code != expect:
                 return ('status-%s-%s' % (s, res.code), 'request %s answered %s, expected %s' % (s, res.status, expect))
+            return None
+        if s == 'swap-handler':
+            from clastic.errors import ErrorHandler
+            self.swaps = getattr(self, 'swaps', 0) + 1
+            app.set_error_handler(ErrorHandler() if self.swaps % 2 else None)
+            return None
+        if s == 'late-add':
+            from werkzeug.wrappers import Response
+            self.adds = getattr(self, 'adds', 0) + 1
+            app.add(('/only/late%d' % self.adds, lambda: Response('late')))
             return None
         if s == 'other-app':
             for p in ('/ok', '/other', '/nowhere'):
